@@ -1,6 +1,788 @@
+/-
+  C19 — summaries and exports report the numbers that are in the matrix.
+
+  Model of: Table.sum / min / max / nonzero_counts / get_table_density / reduce / nonzero /
+  to_dataframe / metadata_to_dataframe / head (biom/table.py), compute_counts_per_sample_stats
+  (biom/util.py), _summarize_table (biom/cli/table_summarizer.py), table-ids, head,
+  export-metadata (biom/cli).
+
+  Two layers.  The *specification side* is a handful of direct functions of the dense grid
+  (`total`, `cntNZ`, `minNZ`, `specDensity`, `specCounts`, …) reached through lookups by ID
+  (`vecOf?`, `Table.cell?`).  The *model side* follows the code: which scipy axis a name maps to,
+  per-vector iteration, the stored values of each vector of the CSR/CSC view for min/max/nonzero/
+  nnz, the dict built by the statistics helper, the transposition done by `--observations`, the
+  sort of the detail lines.  `holds…` predicates are stated on observations with the
+  specification side only.
+-/
 import BiomModel.Codec
 open Lean
+
 namespace Biom.C19
-/-- stub: not built yet -/
-def handle (_req : Json) : Codec.R Json := .error "C19: model not built yet"
+
+abbrev Grid := List (List Rat)
+
+/-! ## Specification side: direct functions of the dense grid -/
+
+def nzVals (v : List Rat) : List Rat := v.filter (fun x => x ≠ 0)
+/-- number of non-zero cells of a vector -/
+def cntNZ (v : List Rat) : Nat := (nzVals v).length
+
+def minL? : List Rat → Option Rat
+  | [] => none
+  | x :: xs => some (xs.foldl min x)
+
+def maxL? : List Rat → Option Rat
+  | [] => none
+  | x :: xs => some (xs.foldl max x)
+
+/-- minimum / maximum of the non-zero values of a vector (`none`: no non-zero value) -/
+def minNZ (v : List Rat) : Option Rat := minL? (nzVals v)
+def maxNZ (v : List Rat) : Option Rat := maxL? (nzVals v)
+
+/-- Σ of all cells, row by row -/
+def total (g : Grid) : Rat := (g.map List.sum).sum
+/-- number of non-zero cells -/
+def nnzCells (g : Grid) : Nat := (g.map cntNZ).sum
+
+/-- the vector of an ID: the row / the column standing where the ID stands -/
+def vecOf? (t : Table Rat) : Axis → Id → Option (List Rat)
+  | .obs, id => t.row? id
+  | .samp, id => lookupBy t.samp (transposeGrid t.samp.length t.rows) id
+
+/-- `f` of the vector of every ID of an axis, in ID order -/
+def perId {β : Type} (t : Table Rat) (ax : Axis) (f : List Rat → β) : List (Option β) :=
+  (t.ids ax).map (fun id => (vecOf? t ax id).map f)
+
+def specDensity (t : Table Rat) : Rat :=
+  if t.obs.length = 0 ∨ t.samp.length = 0 then 0
+  else (nnzCells t.rows : Rat) / ((t.samp.length * t.obs.length : Nat) : Rat)
+
+/-- the per-vector count of the statistics helper: number of non-zero entries, or the sum -/
+def countOf (binary : Bool) (v : List Rat) : Rat := if binary then (cntNZ v : Rat) else v.sum
+
+def insertR (x : Rat) : List Rat → List Rat
+  | [] => [x]
+  | y :: ys => if x ≤ y then x :: y :: ys else y :: insertR x ys
+
+def isort (l : List Rat) : List Rat := l.foldr insertR []
+
+/-- median of a list of numbers (0 for the empty list, as the helper returns) -/
+def median (c : List Rat) : Rat :=
+  let s := isort c
+  let n := s.length
+  if n % 2 = 1 then s.getD (n / 2) 0 else (s.getD (n / 2 - 1) 0 + s.getD (n / 2) 0) / 2
+
+def mean (c : List Rat) : Rat := c.sum / (c.length : Rat)
+
+/-- population variance (numpy `std` with ddof = 0, squared) -/
+def variance (c : List Rat) : Rat :=
+  (c.map (fun x => (x - mean c) * (x - mean c))).sum / (c.length : Rat)
+
+/-! ## Model side -/
+
+/-- the table as the library holds it: content plus the two compressed views of `_data` -/
+structure Input where
+  t : Table Rat
+  csr : CS Rat
+  csc : CS Rat
+  deriving Repr
+
+/-- what the row view must satisfy (scipy's structural invariant, same content, and — since the
+constructor eliminates them — no stored zero) -/
+structure ViewOK (cs : CS Rat) (nMajor nMinor : Nat) (dense : Grid) : Prop where
+  wf : cs.WF
+  nMaj : cs.nMajor = nMajor
+  nMin : cs.nMinor = nMinor
+  content : cs.toDense = dense
+  nsz : cs.NoStoredZeros
+
+def nszb (cs : CS Rat) : Bool := cs.data.all (fun v => v != 0)
+
+def viewOKb (cs : CS Rat) (nMajor nMinor : Nat) (dense : Grid) : Bool :=
+  cs.wfb && cs.nMajor == nMajor && cs.nMinor == nMinor && cs.toDense == dense && nszb cs
+
+def Input.rowOK (inp : Input) : Prop :=
+  ViewOK inp.csr inp.t.obs.length inp.t.samp.length inp.t.rows
+def Input.colOK (inp : Input) : Prop :=
+  ViewOK inp.csc inp.t.samp.length inp.t.obs.length (transposeGrid inp.t.samp.length inp.t.rows)
+
+def Input.okb (inp : Input) : Bool :=
+  viewOKb inp.csr inp.t.obs.length inp.t.samp.length inp.t.rows &&
+  viewOKb inp.csc inp.t.samp.length inp.t.obs.length (transposeGrid inp.t.samp.length inp.t.rows)
+
+/-- `Table.transpose`: IDs and metadata swap, `_data.transpose()` turns the CSR view into the CSC
+view of the result and vice versa -/
+def Input.transpose (inp : Input) : Input :=
+  { t := inp.t.transpose, csr := inp.csc, csc := inp.csr }
+
+/-- dense vectors handed out by `iter_data(axis=…)` / `iter(axis=…)` -/
+def iterData (t : Table Rat) : Axis → Grid
+  | .obs => t.rows
+  | .samp => (List.range t.samp.length).map (colAt t.rows)
+
+/-- stored values of every major vector: what `iter_data(dense=False)` exposes as `.data` -/
+def storedVals (cs : CS Rat) : Grid :=
+  (List.range cs.nMajor).map (fun i => (cs.slice i).map (·.2))
+
+def Input.view (inp : Input) : Axis → CS Rat
+  | .obs => inp.csr
+  | .samp => inp.csc
+
+inductive Query where
+  | sum (ax : Option Axis)
+  | min (ax : Option Axis)
+  | max (ax : Option Axis)
+  | nzc (ax : Option Axis) (binary : Bool)
+  | density
+  | reduce (f : String) (ax : Axis)
+  deriving Repr, DecidableEq
+
+inductive Ans where
+  | num (x : Rat)
+  | nums (xs : List Rat)
+  | inf (neg : Bool)
+  | err (e : Err)
+  deriving Repr, DecidableEq
+
+/-- `sum`: axis name → scipy axis -/
+def scipyAxis : Option Axis → Option Nat
+  | none => none
+  | some .samp => some 0
+  | some .obs => some 1
+
+/-- scipy's `sum(axis)` on the dense content: `None` everything, 0 collapses the rows (one figure
+per column), 1 collapses the columns (one figure per row) -/
+def spSum (nCols : Nat) (g : Grid) : Option Nat → List Rat
+  | none => [total g]
+  | some 0 => (List.range nCols).map (fun j => (colAt g j).sum)
+  | some _ => g.map List.sum
+
+def sumM (t : Table Rat) (ax : Option Axis) : Ans :=
+  match ax, spSum t.samp.length t.rows (scipyAxis ax) with
+  | none, [x] => .num x
+  | none, _ => .err .other
+  | some _, xs => .nums xs
+
+def mapE {α β : Type} (f : α → Except Err β) : List α → Except Err (List β)
+  | [] => .ok []
+  | a :: as =>
+    match f a with
+    | .error e => .error e
+    | .ok b =>
+      match mapE f as with
+      | .error e => .error e
+      | .ok bs => .ok (b :: bs)
+
+/-- numpy `.min()` of an array: refuses the empty array -/
+def npMin : List Rat → Except Err Rat
+  | [] => .error .value
+  | x :: xs => .ok (xs.foldl min x)
+
+def npMax : List Rat → Except Err Rat
+  | [] => .error .value
+  | x :: xs => .ok (xs.foldl max x)
+
+def extremeM (red : List Rat → Except Err Rat) (comb : Rat → Rat → Rat) (neg : Bool)
+    (inp : Input) : Option Axis → Ans
+  | some a =>
+    match mapE red (storedVals (inp.view a)) with
+    | .ok xs => .nums xs
+    | .error e => .err e
+  | none =>
+    -- 'whole' walks the sample vectors, starting from ±inf
+    match mapE red (storedVals inp.csc) with
+    | .error e => .err e
+    | .ok [] => .inf neg
+    | .ok (m :: ms) => .num (ms.foldl comb m)
+
+def minM := extremeM npMin min false
+def maxM := extremeM npMax max true
+
+def opNZ (binary : Bool) (v : List Rat) : Rat := if binary then (cntNZ v : Rat) else v.sum
+
+def nzcM (t : Table Rat) (ax : Option Axis) (binary : Bool) : Ans :=
+  match ax with
+  | some a => .nums ((iterData t a).map (opNZ binary))
+  | none => .nums [((iterData t .samp).map (opNZ binary)).foldl (· + ·) 0]
+
+/-- `nnz` of a compressed matrix without stored zeros: the last `indptr` entry -/
+def nnzM (cs : CS Rat) : Nat := cs.indptr.getD cs.nMajor 0
+
+def densityM (inp : Input) : Rat :=
+  if inp.t.samp.length = 0 ∨ inp.t.obs.length = 0 then 0
+  else (nnzM inp.csr : Rat) / ((inp.t.samp.length * inp.t.obs.length : Nat) : Rat)
+
+/-- the named family of reduce functions used by the correspondence (theorems: every function) -/
+def redF : String → Rat → Rat → Rat
+  | "add" => fun a b => a + b
+  | "sub" => fun a b => a - b
+  | "max" => fun a b => max a b
+  | "last" => fun _ b => b
+  | "affine" => fun a b => 2 * a + b
+  | _ => fun a _ => a
+
+/-- `functools.reduce(f, v)` without initial value -/
+def reduce1 (f : Rat → Rat → Rat) : List Rat → Except Err Rat
+  | [] => .error .type
+  | x :: xs => .ok (xs.foldl f x)
+
+def reduceM (t : Table Rat) (f : Rat → Rat → Rat) (ax : Axis) : Ans :=
+  if t.samp.length = 0 ∨ t.obs.length = 0 then .err .tableException
+  else
+    match mapE (reduce1 f) (iterData t ax) with
+    | .ok xs => .nums xs
+    | .error e => .err e
+
+def answerF (inp : Input) (f : Rat → Rat → Rat) : Query → Ans
+  | .sum ax => sumM inp.t ax
+  | .min ax => minM inp ax
+  | .max ax => maxM inp ax
+  | .nzc ax b => nzcM inp.t ax b
+  | .density => .num (densityM inp)
+  | .reduce _ ax => reduceM inp.t f ax
+
+def qFun : Query → Rat → Rat → Rat
+  | .reduce f _ => redF f
+  | _ => fun a _ => a
+
+def answer (inp : Input) (q : Query) : Ans := answerF inp (qFun q) q
+
+/-- `nonzero()`: walks the CSR view, one (observation ID, sample ID) per stored entry -/
+def nonzeroM (inp : Input) : Except Err (List (Id × Id)) :=
+  (List.range inp.csr.nMajor).foldr (fun i acc => do
+      let rest ← acc
+      let o ← getE inp.t.obs i
+      let ps ← mapE (fun (e : Nat × Rat) => do let s ← getE inp.t.samp e.1; pure (o, s)) (inp.csr.slice i)
+      pure (ps ++ rest)) (.ok [])
+
+/-! ### the statistics helper and the report -/
+
+/-- `d[k] = v` on an insertion-ordered dict -/
+def dictSet (d : List (Id × Rat)) (k : Id) (v : Rat) : List (Id × Rat) :=
+  if d.any (fun e => e.1 == k) then d.map (fun e => if e.1 == k then (k, v) else e) else d ++ [(k, v)]
+
+def buildDict (kvs : List (Id × Rat)) : List (Id × Rat) :=
+  kvs.foldl (fun d kv => dictSet d kv.1 kv.2) []
+
+structure Stats where
+  min : Rat
+  max : Rat
+  median : Rat
+  mean : Rat
+  counts : List (Id × Rat)
+  deriving Repr, DecidableEq
+
+def statsM (t : Table Rat) (binary : Bool) : Stats :=
+  let d := buildDict (t.samp.zip ((iterData t .samp).map (countOf binary)))
+  let c := d.map (·.2)
+  match c with
+  | [] => { min := 0, max := 0, median := 0, mean := 0, counts := d }
+  | x :: xs => { min := xs.foldl min x, max := xs.foldl max x, median := median c, mean := mean c, counts := d }
+
+def insertKV (e : Id × Rat) : List (Id × Rat) → List (Id × Rat)
+  | [] => [e]
+  | y :: ys => if e.2 ≤ y.2 then e :: y :: ys else y :: insertKV e ys
+
+/-- `sorted(items, key=itemgetter(1))`: stable, ascending by count -/
+def sortKV (l : List (Id × Rat)) : List (Id × Rat) := l.foldr insertKV []
+
+def mdKeys : Option (List Md) → List String
+  | none => ["None provided"]
+  | some [] => []
+  | some (m :: _) => m.map (·.1)
+
+/-- the report with exact figures; `printsAs…` relate them to the printed text -/
+structure Report where
+  numSamples : Int
+  numObservations : Int
+  total : Option Int          -- `%d`
+  density : Option Rat        -- `%1.3f`
+  summaryTitle : String
+  detailTitle : String
+  min : Rat
+  max : Rat
+  median : Rat
+  mean : Rat
+  variance : Option Rat       -- the report prints its square root; `none`: not a number
+  sampKeys : List String
+  obsKeys : List String
+  detail : List (Id × Rat)
+  deriving Repr, DecidableEq
+
+/-- `%d` of a number: truncation toward zero -/
+def truncZ (x : Rat) : Int := if 0 ≤ x then x.floor else -((-x).floor)
+
+def reportM (inp : Input) (qualitative observations : Bool) : Report :=
+  let inp' := if observations then inp.transpose else inp
+  let t := inp'.t
+  let st := statsM t qualitative
+  let cv := st.counts.map (·.2)
+  let nObs := t.obs.length
+  let nSamp := t.samp.length
+  let sampKeys := mdKeys t.smd
+  let obsKeys := mdKeys t.omd
+  { numSamples := if observations then nObs else nSamp
+    numObservations := if observations then nSamp else nObs
+    total := if qualitative then none else some (truncZ cv.sum)
+    density := if qualitative then none else some (densityM inp')
+    summaryTitle := if qualitative then (if observations then "Sample/observations summary:" else "Observations/sample summary:")
+                    else "Counts/sample summary:"
+    detailTitle := if qualitative then "Observations/sample detail:" else "Counts/sample detail:"
+    min := st.min, max := st.max, median := st.median, mean := st.mean
+    variance := if cv.length = 0 then none else some (variance cv)
+    sampKeys := if observations then obsKeys else sampKeys
+    obsKeys := if observations then sampKeys else obsKeys
+    detail := sortKV st.counts }
+
+/-! ### listings and exports -/
+
+/-- `table-ids` -/
+def idsM (t : Table Rat) (observations : Bool) : List Id :=
+  t.ids (if observations then .obs else .samp)
+
+structure HeadObs where
+  obs : List Id
+  samp : List Id
+  rows : Grid
+  deriving Repr, DecidableEq
+
+/-- `biom head -n -m`: the command's guards, then the first n observation and m sample IDs are
+kept (`filter` by ID: C08) -/
+def headM (t : Table Rat) (n m : Int) : Except Err HeadObs :=
+  if n = 0 ∨ m = 0 then .error .value
+  else if n < 0 then .error .value
+  else if m < 0 then .error .value
+  else .ok { obs := t.obs.take n.toNat, samp := t.samp.take m.toNat,
+             rows := (t.rows.take n.toNat).map (·.take m.toNat) }
+
+/-- a data frame: row labels, column labels, cells (`none` = NaN) -/
+structure Frame where
+  index : List Id
+  columns : List Id
+  cells : List (List (Option Rat))
+  deriving Repr, DecidableEq
+
+def frameDenseM (t : Table Rat) : Frame :=
+  { index := t.obs, columns := t.samp, cells := t.rows.map (·.map some) }
+
+/-- pandas `DataFrame.sparse.from_spmatrix(mat.tocsc())` as installed: column j is a sparse array
+over the stored entries of column j whose fill value is NaN -/
+def frameSparseM (inp : Input) : Frame :=
+  { index := inp.t.obs, columns := inp.t.samp,
+    cells := (List.range inp.t.obs.length).map (fun i =>
+      (List.range inp.t.samp.length).map (fun j =>
+        ((inp.csc.slice j).find? (fun e => e.1 == i)).map (·.2))) }
+
+/-- a metadata value as `metadata_to_dataframe` sees it: a scalar or a list/tuple -/
+inductive MdVal where
+  | scalar (s : String)
+  | list (xs : List String)
+  deriving Repr, DecidableEq
+
+abbrev MdE := List (String × MdVal)
+
+structure MdFrame where
+  index : List Id
+  columns : List String
+  rows : List (List String)
+  deriving Repr, DecidableEq
+
+def entryColumns (m : MdE) : List String :=
+  m.flatMap (fun kv => match kv.2 with
+    | .scalar _ => [kv.1]
+    | .list xs => (List.range xs.length).map (fun i => kv.1 ++ "_" ++ toString i))
+
+def entryRow (m : MdE) : List String :=
+  m.flatMap (fun kv => match kv.2 with
+    | .scalar s => [s]
+    | .list xs => xs)
+
+/-- `metadata_to_dataframe`: the column names are those of the longest expansion seen (first wins),
+every row is the entry's values in the entry's own key order -/
+def mdFrameM (ids : List Id) (md : Option (List MdE)) : Except Err MdFrame :=
+  match md with
+  | none => .error .key
+  | some es =>
+    let mcols := es.foldl (fun acc m => let c := entryColumns m; if c.length > acc.length then c else acc) []
+    .ok { index := ids, columns := mcols, rows := es.map entryRow }
+
+/-! ## The property, on observations only -/
+open Codec
+
+def approx (a b : Rat) : Bool := (a - b).abs ≤ b.abs / 1099511627776
+
+/-- all vectors of the axis carry a non-zero value: the domain of min/max -/
+def allNonEmpty (t : Table Rat) (ax : Axis) : Bool :=
+  (perId t ax cntNZ).all (fun c => match c with | some n => n != 0 | none => false)
+
+def allCells (t : Table Rat) : List Rat := t.rows.flatten
+
+def holdsQ (t : Table Rat) (f : Rat → Rat → Rat) : Query → Ans → Bool
+  | .sum none, .num x => x == total t.rows
+  | .sum (some ax), .nums xs => xs.map some == perId t ax List.sum
+  | .min (some ax), a =>
+    if allNonEmpty t ax then (match a with | .nums xs => xs.map (fun x => some (some x)) == perId t ax minNZ | _ => false)
+    else true
+  | .max (some ax), a =>
+    if allNonEmpty t ax then (match a with | .nums xs => xs.map (fun x => some (some x)) == perId t ax maxNZ | _ => false)
+    else true
+  | .min none, a =>
+    if allNonEmpty t .samp && t.samp.length != 0 then (match a with | .num x => some x == minNZ (allCells t) | _ => false)
+    else true
+  | .max none, a =>
+    if allNonEmpty t .samp && t.samp.length != 0 then (match a with | .num x => some x == maxNZ (allCells t) | _ => false)
+    else true
+  | .nzc (some ax) true, .nums xs => xs.map some == perId t ax (fun v => (cntNZ v : Rat))
+  | .nzc (some ax) false, .nums xs => xs.map some == perId t ax List.sum
+  | .nzc none true, .nums xs => xs == [(nnzCells t.rows : Rat)]
+  | .nzc none false, .nums xs => xs == [total t.rows]
+  | .density, .num x => x == specDensity t
+  | .reduce _ ax, a =>
+    if t.samp.length = 0 ∨ t.obs.length = 0 then a == .err .tableException
+    else (match a with
+      | .nums xs => xs.map (fun x => some (some x)) == perId t ax (fun v => (reduce1 f v).toOption)
+      | _ => false)
+  | _, _ => false
+
+/-- `nonzero()`: exactly the (observation ID, sample ID) pairs whose cell is not zero, each once -/
+def holdsNonzero (t : Table Rat) (ps : List (Id × Id)) : Bool :=
+  decide ps.Nodup &&
+  ps.all (fun p => t.obs.contains p.1 && t.samp.contains p.2) &&
+  t.obs.all (fun o => t.samp.all (fun s => ps.contains (o, s) == (t.cell? o s != some 0)))
+
+/-- the counts the statistics are about, by sample ID -/
+def specCounts (t : Table Rat) (binary : Bool) : List (Option Rat) := perId t .samp (countOf binary)
+
+def holdsStats (t : Table Rat) (binary : Bool) (s : Stats) : Bool :=
+  let c := (specCounts t binary).map (·.getD 0)
+  s.counts.map (·.1) == t.samp &&
+  s.counts.map (fun e => some e.2) == specCounts t binary &&
+  (match c with
+   | [] => s.min == 0 && s.max == 0 && s.median == 0 && s.mean == 0
+   | _ :: _ => some s.min == minL? c && some s.max == maxL? c && s.median == median c && approx s.mean (mean c))
+
+def tol3 : Rat := 1 / 2000 + 1 / 1000000000
+
+/-- a figure printed with `%1.3f` -/
+def printsAs3 (exact printed : Rat) : Bool := (printed - exact).abs ≤ tol3
+
+def printsAsStd (var : Option Rat) (printed : Option Rat) : Bool :=
+  match var, printed with
+  | none, none => true
+  | some v, some p =>
+    let lo := if p - tol3 ≤ 0 then 0 else (p - tol3) * (p - tol3)
+    0 ≤ p + tol3 && lo ≤ v && v ≤ (p + tol3) * (p + tol3)
+  | _, _ => false
+
+/-- the report as parsed from the text: same shape, numbers at printed precision, the standard
+deviation in place of the variance -/
+structure Printed where
+  numSamples : Int
+  numObservations : Int
+  total : Option Int
+  density : Option Rat
+  summaryTitle : String
+  detailTitle : String
+  min : Rat
+  max : Rat
+  median : Rat
+  mean : Rat
+  std : Option Rat
+  sampKeys : List String
+  obsKeys : List String
+  detail : List (Id × Rat)
+  deriving Repr, DecidableEq
+
+def sortedKeys (ks : List String) : List String := ks.mergeSort (fun a b => a ≤ b)
+
+def pairwiseLe : List Rat → Bool
+  | [] => true
+  | [_] => true
+  | a :: b :: rest => a ≤ b && pairwiseLe (b :: rest)
+
+/-- the figures a report must show, for a mode, from the dense table only -/
+def holdsReport (t : Table Rat) (qualitative observations : Bool) (p : Printed) : Bool :=
+  let ax : Axis := if observations then .obs else .samp
+  let ids := t.ids ax
+  let cnt : Id → Option Rat := fun id => (vecOf? t ax id).map (countOf qualitative)
+  let c := ids.map (fun id => (cnt id).getD 0)
+  p.numSamples == (t.samp.length : Int) && p.numObservations == (t.obs.length : Int) &&
+  (if qualitative then p.total == none && p.density == none
+   else p.total == some (truncZ (total t.rows)) &&
+        (match p.density with | some d => printsAs3 (specDensity t) d | none => false)) &&
+  p.summaryTitle == (if qualitative then (if observations then "Sample/observations summary:" else "Observations/sample summary:")
+                     else "Counts/sample summary:") &&
+  p.detailTitle == (if qualitative then "Observations/sample detail:" else "Counts/sample detail:") &&
+  (match c with
+   | [] => printsAs3 0 p.min && printsAs3 0 p.max && printsAs3 0 p.median && printsAs3 0 p.mean && p.std == none
+   | _ :: _ =>
+     (match minL? c, maxL? c with
+      | some mn, some mx => printsAs3 mn p.min && printsAs3 mx p.max
+      | _, _ => false) &&
+     printsAs3 (median c) p.median && printsAs3 (mean c) p.mean && printsAsStd (some (variance c)) p.std) &&
+  sortedKeys p.sampKeys == sortedKeys (mdKeys t.smd) && sortedKeys p.obsKeys == sortedKeys (mdKeys t.omd) &&
+  -- every ID of the summarised axis is listed once with its own count, in ascending order of count
+  p.detail.length == ids.length && ids.all (fun id => (p.detail.map (·.1)).contains id) &&
+  p.detail.all (fun e => match cnt e.1 with | some x => printsAs3 x e.2 | none => false) &&
+  pairwiseLe (p.detail.map (fun e => (cnt e.1).getD 0))
+
+/-- the model's report seen as a printed one (exact figures print as themselves) -/
+def Report.printed (r : Report) (std : Option Rat) : Printed :=
+  { numSamples := r.numSamples, numObservations := r.numObservations, total := r.total,
+    density := r.density, summaryTitle := r.summaryTitle, detailTitle := r.detailTitle,
+    min := r.min, max := r.max, median := r.median, mean := r.mean, std := std,
+    sampKeys := r.sampKeys, obsKeys := r.obsKeys, detail := r.detail }
+
+/-- the parsed text agrees with the model's exact report -/
+def reportAgrees (r : Report) (p : Printed) : Bool :=
+  p.numSamples == r.numSamples && p.numObservations == r.numObservations && p.total == r.total &&
+  (match r.density, p.density with | some x, some d => printsAs3 x d | none, none => true | _, _ => false) &&
+  p.summaryTitle == r.summaryTitle && p.detailTitle == r.detailTitle &&
+  printsAs3 r.min p.min && printsAs3 r.max p.max && printsAs3 r.median p.median && printsAs3 r.mean p.mean &&
+  printsAsStd r.variance p.std &&
+  sortedKeys p.sampKeys == sortedKeys r.sampKeys && sortedKeys p.obsKeys == sortedKeys r.obsKeys &&
+  p.detail.map (·.1) == r.detail.map (·.1) &&
+  (p.detail.zip r.detail).all (fun pr => printsAs3 pr.2.2 pr.1.2)
+
+def holdsIds (t : Table Rat) (observations : Bool) (listed : List Id) : Bool :=
+  listed == (if observations then t.obs else t.samp)
+
+/-- `head`: the first n / m IDs in order, every shown value is the table's value for that ID pair -/
+def holdsHead (t : Table Rat) (n m : Int) (r : Except Err HeadObs) : Bool :=
+  if n ≤ 0 ∨ m ≤ 0 then (match r with | .error _ => true | .ok _ => false)
+  else match r with
+    | .error _ => false
+    | .ok h =>
+      h.obs == t.obs.take n.toNat && h.samp == t.samp.take m.toNat &&
+      h.obs.all (fun o => h.samp.all (fun s =>
+        (lookupBy h.obs h.rows o).bind (fun r => lookupBy h.samp r s) == t.cell? o s))
+
+def Frame.cell? (f : Frame) (o s : Id) : Option (Option Rat) :=
+  (lookupBy f.index f.cells o).bind (fun r => lookupBy f.columns r s)
+
+def frameLabels (t : Table Rat) (f : Frame) : Bool := f.index == t.obs && f.columns == t.samp
+
+/-- every cell of the frame, looked up by its labels, is the table's value -/
+def frameValues (t : Table Rat) (f : Frame) : Bool :=
+  t.obs.all (fun o => t.samp.all (fun s => f.cell? o s == (t.cell? o s).map some))
+
+/-- the frame is right wherever the table's value is not zero, and where it is zero the frame
+shows zero or NaN -/
+def frameValuesNZ (t : Table Rat) (f : Frame) : Bool :=
+  t.obs.all (fun o => t.samp.all (fun s =>
+    match t.cell? o s with
+    | some v => if v = 0 then (f.cell? o s == some (some 0) || f.cell? o s == some none) else f.cell? o s == some (some v)
+    | none => false))
+
+def frameVerdict (t : Table Rat) (sparse : Bool) (f : Frame) : Verdict :=
+  allV [chk "frame.labels" (frameLabels t f),
+        if sparse then
+          (chk "frame.sparse.cell" (frameValuesNZ t f)).and (chk "frame.sparse.values" (frameValues t f))
+        else chk "frame.dense.values" (frameValues t f)]
+
+def holdsFrame (t : Table Rat) (sparse : Bool) (f : Frame) : Bool := (frameVerdict t sparse f).isNone
+
+/-- metadata frame: index = IDs in order; for every ID and every (key, position) of its entry the
+frame shows that value under the column `key` / `key_position`; there are no other columns -/
+def holdsMdFrame (ids : List Id) (md : Option (List MdE)) (r : Except Err MdFrame) : Bool :=
+  match md, r with
+  | none, .error e => e == .key
+  | some es, .ok f =>
+    f.index == ids && f.rows.length == ids.length &&
+    (ids.zip es).all (fun (id, m) =>
+      match lookupBy f.index f.rows id with
+      | none => false
+      | some row =>
+        row.length == f.columns.length &&
+        ((entryColumns m).zip (entryRow m)).all (fun (c, v) => lookupBy f.columns row c == some v) &&
+        f.columns.all (fun c => (entryColumns m).contains c))
+  | _, _ => false
+
+/-! ## JSON glue -/
+
+def asOptAxis (j : Json) : R (Option Axis) := do
+  match (← asStr j) with
+  | "observation" => pure (some .obs)
+  | "sample" => pure (some .samp)
+  | "whole" => pure none
+  | s => .error s!"bad axis {s}"
+
+def asQuery (j : Json) : R Query := do
+  match (← strF j "q") with
+  | "sum" => pure (.sum (← asOptAxis (← fld j "axis")))
+  | "min" => pure (.min (← asOptAxis (← fld j "axis")))
+  | "max" => pure (.max (← asOptAxis (← fld j "axis")))
+  | "nzc" => pure (.nzc (← asOptAxis (← fld j "axis")) (← boolF j "binary"))
+  | "density" => pure .density
+  | "reduce" => pure (.reduce (← strF j "f") (← axisF j "axis"))
+  | s => .error s!"bad query {s}"
+
+def asAns (j : Json) : R Ans := do
+  if let some v := optFld j "num" then return .num (← asRat v)
+  if let some v := optFld j "nums" then return .nums (← asList asRat v)
+  if let some v := optFld j "inf" then return .inf (← asBool v)
+  if let some v := optFld j "err" then return .err (asErr (← asStr v))
+  .error "bad answer"
+
+def ansToJson : Ans → Json
+  | .num x => Json.mkObj [("num", ratToJson x)]
+  | .nums xs => Json.mkObj [("nums", ratsToJson xs)]
+  | .inf n => Json.mkObj [("inf", .bool n)]
+  | .err e => Json.mkObj [("err", .str e.name)]
+
+def asInput (j : Json) : R Input := do
+  pure { t := (← asTable (← fld j "table")), csr := (← asCS (← fld j "csr")), csc := (← asCS (← fld j "csc")) }
+
+def asKV (j : Json) : R (Id × Rat) := do
+  match (← asArr j) with
+  | [a, b] => pure ((← asStr a), (← asRat b))
+  | _ => .error "kv pair"
+
+def kvToJson (l : List (Id × Rat)) : Json := .arr (l.map (fun (k, v) => Json.arr #[.str k, ratToJson v])).toArray
+
+def asPair (j : Json) : R (Id × Id) := do
+  match (← asArr j) with
+  | [a, b] => pure ((← asStr a), (← asStr b))
+  | _ => .error "id pair"
+
+def asStats (j : Json) : R Stats := do
+  pure { min := (← asRat (← fld j "min")), max := (← asRat (← fld j "max")), median := (← asRat (← fld j "median")),
+         mean := (← asRat (← fld j "mean")), counts := (← listF asKV j "counts") }
+
+def statsToJson (s : Stats) : Json :=
+  Json.mkObj [("min", ratToJson s.min), ("max", ratToJson s.max), ("median", ratToJson s.median),
+    ("mean", ratToJson s.mean), ("counts", kvToJson s.counts)]
+
+def asPrinted (j : Json) : R Printed := do
+  pure { numSamples := (← intF j "num_samples"), numObservations := (← intF j "num_observations"),
+         total := (← optF asInt j "total"), density := (← optF asRat j "density"),
+         summaryTitle := (← strF j "summary_title"), detailTitle := (← strF j "detail_title"),
+         min := (← asRat (← fld j "min")), max := (← asRat (← fld j "max")),
+         median := (← asRat (← fld j "median")), mean := (← asRat (← fld j "mean")),
+         std := (← optF asRat j "std"), sampKeys := (← listF asStr j "samp_keys"),
+         obsKeys := (← listF asStr j "obs_keys"), detail := (← listF asKV j "detail") }
+
+def reportToJson (r : Report) : Json :=
+  Json.mkObj [("num_samples", toJson r.numSamples), ("num_observations", toJson r.numObservations),
+    ("total", optToJson (fun (i : Int) => toJson i) r.total), ("density", optToJson ratToJson r.density),
+    ("summary_title", .str r.summaryTitle), ("detail_title", .str r.detailTitle),
+    ("min", ratToJson r.min), ("max", ratToJson r.max), ("median", ratToJson r.median),
+    ("mean", ratToJson r.mean), ("variance", optToJson ratToJson r.variance),
+    ("samp_keys", strsToJson r.sampKeys), ("obs_keys", strsToJson r.obsKeys), ("detail", kvToJson r.detail)]
+
+def asCell (j : Json) : R (Option Rat) := asOpt asRat j
+
+def asFrame (j : Json) : R Frame := do
+  pure { index := (← listF asStr j "index"), columns := (← listF asStr j "columns"),
+         cells := (← listF (asList asCell) j "cells") }
+
+def frameToJson (f : Frame) : Json :=
+  Json.mkObj [("index", strsToJson f.index), ("columns", strsToJson f.columns),
+    ("cells", .arr (f.cells.map (fun r => Json.arr (r.map (optToJson ratToJson)).toArray)).toArray)]
+
+def asMdVal (j : Json) : R MdVal :=
+  match j with
+  | .str s => pure (.scalar s)
+  | v => do pure (.list (← asList asStr v))
+
+def asMdE (j : Json) : R MdE := asList (fun p => do
+  match (← asArr p) with
+  | [k, v] => pure ((← asStr k), (← asMdVal v))
+  | _ => .error "md pair") j
+
+def asMdFrameR (j : Json) : R (Except Err MdFrame) := do
+  if let some e := optFld j "error" then return .error (asErr (← asStr e))
+  let f ← fld j "ok"
+  pure (.ok { index := (← listF asStr f "index"), columns := (← listF asStr f "columns"),
+              rows := (← listF (asList asStr) f "rows") })
+
+def mdFrameToJson (f : MdFrame) : Json :=
+  Json.mkObj [("index", strsToJson f.index), ("columns", strsToJson f.columns),
+    ("rows", .arr (f.rows.map strsToJson).toArray)]
+
+def asHeadR (j : Json) : R (Except Err HeadObs) := do
+  if let some e := optFld j "error" then return .error (asErr (← asStr e))
+  let f ← fld j "ok"
+  pure (.ok { obs := (← listF asStr f "obs"), samp := (← listF asStr f "samp"), rows := (← listF (asList asRat) f "rows") })
+
+def headToJson (h : HeadObs) : Json :=
+  Json.mkObj [("obs", strsToJson h.obs), ("samp", strsToJson h.samp), ("rows", gridToJson h.rows)]
+
+def result (v : Verdict) (agree : Bool) (model : Json) (extra : List (String × Json) := []) : Json :=
+  Json.mkObj (verdictToJson v ++ [("agree", .bool agree), ("model", model)] ++ extra)
+
+/-- requests: {"op": "queries"|"nonzero"|"stats"|"report"|"ids"|"head"|"frame"|"mdframe", …} -/
+def handle (req : Json) : R Json := do
+  match (← strF req "op") with
+  | "queries" =>
+    -- {"input": {table, csr, csc}, "items": [{"query": …, "ans": …}]}
+    let inp ← asInput (← fld req "input")
+    let items ← listF (fun it => do pure ((← asQuery (← fld it "query")), (← asAns (← fld it "ans")))) req "items"
+    let verdicts := items.map (fun (q, a) => chk (toString (repr q)) (holdsQ inp.t (qFun q) q a))
+    let models := items.map (fun (q, _) => answer inp q)
+    let agree := (items.zip models).all (fun ((_, a), m) => a == m)
+    let modelHolds := (items.zip models).all (fun ((q, _), m) => holdsQ inp.t (qFun q) q m)
+    pure (result (allV verdicts) agree (.arr (models.map ansToJson).toArray)
+      [("layout_ok", .bool inp.okb), ("model_holds", .bool modelHolds),
+       ("disagree", .arr ((items.zip models).filterMap (fun ((q, a), m) =>
+          if a == m then none else some (Json.str (toString (repr q))))).toArray)])
+  | "nonzero" =>
+    let inp ← asInput (← fld req "input")
+    let ps ← listF asPair req "pairs"
+    let m := nonzeroM inp
+    let mj := match m with
+      | .ok l => Json.mkObj [("ok", .arr (l.map (fun (o, s) => Json.arr #[.str o, .str s])).toArray)]
+      | .error e => errToJson e
+    pure (result (chk "nonzero" (holdsNonzero inp.t ps)) (match m with | .ok l => l == ps | .error _ => false) mj [("layout_ok", .bool inp.okb)])
+  | "stats" =>
+    let t ← asTable (← fld req "table")
+    let binary ← boolF req "binary"
+    let s ← asStats (← fld req "stats")
+    let m := statsM t binary
+    let agree := s.min == m.min && s.max == m.max && s.median == m.median && approx s.mean m.mean && s.counts == m.counts
+    pure (result (chk "stats" (holdsStats t binary s)) agree (statsToJson m)
+      [("model_holds", .bool (holdsStats t binary m))])
+  | "report" =>
+    let inp ← asInput (← fld req "input")
+    let q ← boolF req "qualitative"
+    let o ← boolF req "observations"
+    let p ← asPrinted (← fld req "printed")
+    let m := reportM inp q o
+    pure (result (chk "report" (holdsReport inp.t q o p)) (reportAgrees m p) (reportToJson m)
+      [("layout_ok", .bool inp.okb),
+       ("model_holds", .bool (holdsReport inp.t q o (m.printed p.std) || !printsAsStd m.variance p.std))])
+  | "ids" =>
+    let t ← asTable (← fld req "table")
+    let o ← boolF req "observations"
+    let l ← listF asStr req "listed"
+    pure (result (chk "ids" (holdsIds t o l)) (l == idsM t o) (strsToJson (idsM t o)))
+  | "head" =>
+    let t ← asTable (← fld req "table")
+    let n ← intF req "n"
+    let m ← intF req "m"
+    let r ← asHeadR (← fld req "result")
+    let mo := headM t n m
+    let agree := match r, mo with
+      | .ok a, .ok b => a == b
+      | .error a, .error b => a == b
+      | _, _ => false
+    pure (result (chk "head" (holdsHead t n m r)) agree (exceptToJson headToJson mo))
+  | "frame" =>
+    let inp ← asInput (← fld req "input")
+    let sparse ← boolF req "sparse"
+    let f ← asFrame (← fld req "frame")
+    let m := if sparse then frameSparseM inp else frameDenseM inp.t
+    pure (result (frameVerdict inp.t sparse f) (f == m) (frameToJson m) [("layout_ok", .bool inp.okb)])
+  | "mdframe" =>
+    let ids ← listF asStr req "ids"
+    let md ← optF (asList asMdE) req "md"
+    let r ← asMdFrameR (← fld req "result")
+    let mo := mdFrameM ids md
+    let agree := match r, mo with
+      | .ok a, .ok b => a.index == b.index && a.columns == b.columns && a.rows == b.rows
+      | .error a, .error b => a == b
+      | _, _ => false
+    pure (result (chk "mdframe" (holdsMdFrame ids md r)) agree (exceptToJson mdFrameToJson mo))
+  | s => .error s!"C19: unknown op {s}"
+
 end Biom.C19
